@@ -218,6 +218,36 @@ def r2(ctx):
     ok = kw.get('method') == 'source.method' and kw.get('service') == 'source.service' and kw.get('endpoint') == 'endpoint' and not ctor[0].args
   ctx.ob('C18.R2', d, 'per-reply Source copies method, service and the endpoint string', ok, 'per-reply Source is %s' % (U(ctor[0]) if ctor else None),
          'replies from the same endpoint must land in the same series')
+  # every reply of a tracked call (a call dispatched with a source) is recorded: latency once, and success or exception once -- whatever the endpoint is
+  # (None for a call that never reached a balancer member)
+  srcn = None
+  for st in walk_no_nested(d.node):
+    if isinstance(st, ast.Assign) and isinstance(st.targets[0], ast.Tuple) and U(st.value) == d.params[2] and len(st.targets[0].elts) == 4:
+      srcn = U(st.targets[0].elts[0])
+  n_tr = 0
+  if srcn:
+    for ev, ex in enum_paths(ctx, d):
+      fs = FACTS(ev)
+      if (srcn, True) not in fs:
+        continue
+      # a freshly constructed Source is truthy (the class defines neither __bool__ nor __len__, checked below): paths that test it false are infeasible
+      built = set(U(e.node.targets[0]) for e in ev if e.kind == 'stmt' and isinstance(e.node, ast.Assign) and isinstance(e.node.value, ast.Call) and U(e.node.value.func) == 'Source')
+      none_ = set(U(e.node.targets[0]) for e in ev if e.kind == 'stmt' and isinstance(e.node, ast.Assign) and isinstance(e.node.value, ast.Constant) and e.node.value.value is None)
+      if any((b_, False) in fs for b_ in built - none_):
+        continue
+      n_tr += 1
+      cnt = lambda nm: len([e for e in ev if e.kind == 'call' and call_attr(e.node) == nm])
+      is_ret = ('isinstance(%s,MethodReturnMessage)' % d.params[4], True) in fs
+      err = ('%s.error' % d.params[4], True) in fs
+      want = (1, 1 if is_ret and err else 0, 1 if is_ret and not err else 0)
+      got = (cnt('request_latency'), cnt('exception_messages'), cnt('success_messages'))
+      ctx.ob('C18.R2', d, 'a reply to a tracked call is recorded: latency once, success or exception once', got == want,
+             'a path with a truthy source records (latency, exception, success) = %s, expected %s' % (got, want),
+             'dispatch_messages is counted for every call with a source; the reply counters of the same service must add up to it (a reply whose endpoint is still None -- no balancer member reached -- is a reply too)')
+  ctx.floor('C18.R2', 'reply paths of tracked calls', n_tr, 3)
+  scls = prog.cls(V, 'Source')
+  ctx.ob('C18.R2', '%s:%d' % (V, scls.node.lineno), 'a Source object is always truthy', not ({'__bool__', '__len__', '__nonzero__'} & set(scls.methods)), 'Source defines a truth value',
+         'the reply counters are guarded by `if host_source:`', nontrivial=False)
   # the per-call source of the dispatcher names THIS dispatcher's service: built per call, or cached per instance -- a table shared by all
   # dispatchers (class attribute) keyed by the method alone records one service's calls under another's
   dm = prog.func('scales/dispatch.py', 'MessageDispatcher._DispatchMethod')
